@@ -1103,14 +1103,25 @@ func anchoredBody(s string) (body string, ok bool) {
 	return s[1 : len(s)-1], true
 }
 
+// parseCanonicalUint accepts only the decimal rendering a community's text can contain:
+// digits, no sign, no blanks, no leading zeros. Anything else can never match that text as a
+// literal, so it must not be promoted to a number.
+func parseCanonicalUint(s string, bits int) (uint64, bool) {
+	if s == "" || (len(s) > 1 && s[0] == '0') {
+		return 0, false
+	}
+	n, err := strconv.ParseUint(s, 10, bits)
+	return n, err == nil
+}
+
 func parseExactASColonLocal(body string, localBits int) (asn uint16, local uint32, ok bool) {
 	idx := strings.IndexByte(body, ':')
 	if idx <= 0 || idx != strings.LastIndexByte(body, ':') {
 		return 0, 0, false
 	}
-	asn64, err1 := strconv.ParseUint(body[:idx], 10, 16)
-	loc64, err2 := strconv.ParseUint(body[idx+1:], 10, localBits)
-	if err1 != nil || err2 != nil {
+	asn64, ok1 := parseCanonicalUint(body[:idx], 16)
+	loc64, ok2 := parseCanonicalUint(body[idx+1:], localBits)
+	if !ok1 || !ok2 {
 		return 0, 0, false
 	}
 	return uint16(asn64), uint32(loc64), true
@@ -1126,20 +1137,19 @@ func isWildcardLocal(s string) bool {
 }
 
 func parseLocalAdminSet(rhs string) (*localAdminBitmap, bool) {
-	rhs = strings.TrimSpace(rhs)
 	var locals []uint16
 	switch {
 	case strings.HasPrefix(rhs, "(") && strings.HasSuffix(rhs, ")"):
 		for _, tok := range strings.Split(rhs[1:len(rhs)-1], "|") {
-			n, err := strconv.ParseUint(strings.TrimSpace(tok), 10, 16)
-			if err != nil {
+			n, ok := parseCanonicalUint(tok, 16)
+			if !ok {
 				return nil, false
 			}
 			locals = append(locals, uint16(n))
 		}
 	default:
-		n, err := strconv.ParseUint(rhs, 10, 16)
-		if err != nil {
+		n, ok := parseCanonicalUint(rhs, 16)
+		if !ok {
 			return nil, false
 		}
 		locals = []uint16{uint16(n)}
@@ -1208,8 +1218,8 @@ func extractLiteralASN(s string) (uint16, bool) {
 	if idx <= 0 {
 		return 0, false
 	}
-	asn, err := strconv.ParseUint(s[start:start+idx], 10, 16)
-	return uint16(asn), err == nil
+	asn, ok := parseCanonicalUint(s[start:start+idx], 16)
+	return uint16(asn), ok
 }
 
 func compileCommunityMatcher(re *regexp.Regexp, listIndex int) communityMatcher {
